@@ -3,7 +3,11 @@ package props
 // C10: every entry point is total, panic-free and accepts exactly the representable inputs.
 
 import (
+	"bytes"
+	"context"
 	"fmt"
+	"os/exec"
+	"strconv"
 	"strings"
 	"testing"
 	"time"
@@ -782,6 +786,94 @@ func TestC10Boundaries(t *testing.T) {
 	})
 	st.Sample("boundary", cases[len(cases)-1])
 	st.Sample("boundary", EncSpec{Fam: "code128", Content: BStr(strings.Repeat("a", 81))})
+	if ct.Failed() {
+		t.Fatalf("%s", ct.first)
+	}
+}
+
+// HugeInput: one call with a content of N characters cycling through Alphabet, executed in a process of its own
+// (thorough tier). "Returns either a barcode or an error" also has to hold for inputs of many megabytes: an encoder whose
+// recursion depth grows with the input dies of stack exhaustion, which no recover() in the caller can turn into an
+// error. A run that exceeds the time limit or the machine's memory is not judged.
+type HugeInput struct {
+	Fam      string `json:"fam"`
+	N        int    `json:"n"`
+	Alphabet string `json:"alphabet"`
+}
+
+func checkHugeInput(t TB, st *Stats, c HugeInput) string {
+	bin, err := oneshotPath(false)
+	if err != nil {
+		t.Fatalf("INFRASTRUCTURE: %v", err)
+	}
+	ctx, cancel := context.WithTimeout(context.Background(), 400*time.Second)
+	defer cancel()
+	cmd := exec.CommandContext(ctx, bin, "giant", c.Fam, strconv.Itoa(c.N), c.Alphabet)
+	var so, se bytes.Buffer
+	cmd.Stdout, cmd.Stderr = &so, &se
+	rerr := cmd.Run()
+	out, errOut := so.String(), se.String()
+	switch {
+	case ctx.Err() != nil:
+		return "not judged: time limit"
+	case rerr == nil && (strings.HasPrefix(out, "giant: error") || strings.HasPrefix(out, "giant: barcode")):
+		return strings.TrimSpace(out)
+	case strings.HasPrefix(out, "giant: panic"):
+		failf(t, "C10", "huge-input", c, "%s", strings.TrimSpace(out))
+	case strings.Contains(errOut, "stack overflow") || strings.Contains(errOut, "goroutine stack exceeds"):
+		failf(t, "C10", "huge-input", c, "the process died of stack exhaustion (recursion depth grows with the input): %s", firstLines(errOut, 3))
+	case strings.Contains(errOut, "out of memory") || strings.Contains(errOut, "cannot allocate"):
+		return "not judged: out of memory"
+	case strings.Contains(errOut, "fatal error:") || strings.Contains(errOut, "panic:"):
+		failf(t, "C10", "huge-input", c, "the process died: %s", firstLines(errOut, 3))
+	default:
+		return fmt.Sprintf("not judged: helper failed (%v)", rerr)
+	}
+	return "violation"
+}
+
+func firstLines(s string, n int) string {
+	l := strings.SplitN(s, "\n", n+1)
+	if len(l) > n {
+		l = l[:n]
+	}
+	return strings.Join(l, " | ")
+}
+
+func init() { register("huge-input", func(t TB, c HugeInput) { checkHugeInput(t, nil, c) }) }
+
+// TestC10Huge (thorough tier): inputs of 1 to 16 million characters.
+func TestC10Huge(t *testing.T) {
+	st := NewStats("C10", "huge")
+	defer st.Flush()
+	ct := &collectTB{}
+	var cases []HugeInput
+	for _, n := range []int{1 << 20, 13000000, 16000000} {
+		cases = append(cases, HugeInput{"aztec", n, "0123456789"}, HugeInput{"aztec", n, "ABCDEFGHIJKLMNOPQRSTUVWXYZ"})
+	}
+	cases = append(cases, HugeInput{"aztec", 8000000, "a1B, c2D. "}, HugeInput{"aztec", 4000000, "\x80\x01\xff"},
+		HugeInput{"pdf417", 16000000, "0123456789"}, HugeInput{"pdf417", 200000, "ABCDEFGHIJ abc 12"},
+		HugeInput{"datamatrix", 16000000, "0123456789"}, HugeInput{"datamatrix", 16000000, "aB\x80"},
+		HugeInput{"qr", 16000000, "0123456789"}, HugeInput{"qr", 16000000, "AB $%"}, HugeInput{"qr", 16000000, "a\x80"},
+		HugeInput{"code128", 16000000, "0123456789"}, HugeInput{"code128", 16000000, "aB1"}, HugeInput{"ean", 16000000, "0123456789"},
+		HugeInput{"codabar", 16000000, "0123456789"}, HugeInput{"2of5", 2000000, "0123456789"}, HugeInput{"itf", 2000000, "0123456789"},
+		HugeInput{"code39", 1000000, "ABC123"}, HugeInput{"code93", 1000000, "ABC123"})
+	parallelFor(len(cases), 3, func(i int) {
+		if ct.Failed() {
+			return
+		}
+		ct.guard(func() {
+			res := checkHugeInput(ct, st, cases[i])
+			st.Eval()
+			if strings.HasPrefix(res, "not judged") {
+				st.Class("huge input: " + res)
+				return
+			}
+			st.NonTrivial(c10Hash(EncSpec{Fam: "huge " + cases[i].Fam, Content: BStr(cases[i].Alphabet), A: cases[i].N}))
+			st.Class("huge input (>= 1M characters) in a process of its own: " + strings.SplitN(res, " ", 3)[1])
+		})
+	})
+	st.Sample("huge", cases[2])
 	if ct.Failed() {
 		t.Fatalf("%s", ct.first)
 	}
